@@ -60,6 +60,7 @@ func init() {
 				// every IndexType x ShardNum{1,3} x FileIOType x SyncStrategy combination as a choice point
 				add("cfgsweep-k2", merge(base, p("cfgsweep", 2, "k", 2, "ops", opPut|opDelete|opMerge, "vlens", 1, "dfs_lo", 40, "dfs_hi", 40)))
 				add("hashmap-s3-keyfamily2-k3", merge(base, p("ckeys", 2, "k", 3, "ops", opPut|opDelete, "index", 3, "shards", 3, "vlens", 1)))
+				add("hashmap-s16-xxhash-collision-keys-batch-k2", merge(base, p("ckeys", 5, "k", 2, "ops", opPut|opDelete|opBatch, "bmax", 2, "index", 3, "shards", 16, "vlens", 1)))
 				add("btree-s3-sync-threshold-mmap-k2", merge(base, p("k", 2, "ops", opPut|opDelete, "index", 1, "shards", 3, "sync", 2, "io", 1, "vlens", 2)))
 			} else {
 				for idx := 1; idx <= 3; idx++ {
@@ -106,6 +107,8 @@ func init() {
 				add("skiplist-k3-pre1-s2", merge(base, p("k", 3, "pre", 1, "index", 2, "shards", 2, "vlens", 1)))
 				add("skiplist-k2-pool3-s1", merge(base, p("k", 2, "pre", 2, "pool", 3, "index", 2, "shards", 1, "vlens", 1)))
 				add("btree-k2-mmap-s2", merge(base, p("k", 2, "pre", 1, "index", 1, "shards", 2, "io", 1)))
+				// two different keys with the same xxhash64 (key family 5) inside one batch
+				add("hashmap-k3-xxhash-collision-keys", merge(base, p("ckeys", 5, "k", 3, "pre", 1, "index", 3, "shards", 2, "vlens", 1)))
 				add("cfgsweep-k2-pre1", merge(base, p("cfgsweep", 2, "k", 2, "pre", 1, "vlens", 1, "dfs_lo", 40, "dfs_hi", 40)))
 			} else {
 				for idx := 1; idx <= 3; idx++ {
@@ -609,7 +612,7 @@ func init() {
 	register(&CheckDef{
 		ID:    "C12",
 		Title: "Damaged bytes are detected or harmless, never served as data and never a panic",
-		Reach: []string{"done", "bit-flip", "truncated", "block-garbage", "open-detected", "open-accepted", "get-detected", "value-served", "hint-damaged", "seq-error", "random-error"},
+		Reach: []string{"done", "bit-flip", "truncated", "block-garbage", "open-detected", "open-accepted", "get-detected", "value-served", "hint-damaged", "seq-error", "random-error", "damaged-while-open"},
 		Jobs: func(tier string) []JobSpec {
 			var js []JobSpec
 			add := func(name string, params map[string]int64) {
@@ -628,6 +631,10 @@ func init() {
 				add("k2-merge-hint", merge(base, p("k", 2, "ops", opPut|opDelete, "vlens", 1, "merge", 1)))
 				add("k2-merge-hint-multichunk", merge(base, p("k", 2, "ops", opPut, "vlens", 3, "vbig", 30, "merge", 1)))
 				add("k1-batch", merge(base, p("k", 1, "ops", opBatch, "bmax", 2, "vlens", 1)))
+				// the damage happens while the database is OPEN (stale cached sizes, pooled buffers still holding other
+				// blocks); DataFileSize 20 puts every record into its own file at the same in-block offset
+				add("k2-damaged-while-open", merge(base, p("k", 2, "ops", opPut, "vlens", 1, "live", 1, "dfs_lo", 20, "dfs_hi", 20)))
+				add("k2-damaged-while-open-onefile", merge(base, p("k", 2, "ops", opPut|opDelete, "vlens", 2, "live", 1)))
 			} else {
 				add("k3", merge(base, p("k", 3, "ops", opPut|opDelete)))
 				add("k3-rot-bigval", merge(base, p("k", 3, "ops", opPut|opDelete, "vlens", 3, "vbig", 30, "dfs_lo", 60, "dfs_hi", 120)))
@@ -806,6 +813,7 @@ func init() {
 				add("string-hash-del-type-2keys-k3", p("k", 3, "keys", 2, "cmds", cSet|cGet|cDel|cType|cHSet|cHGet|cHDel|cRestart))
 				add("list-restart-k4", p("k", 4, "keys", 1, "cmds", cLPush|cLPop|cDel|cRestart))
 				add("zset-btree-k3", p("k", 3, "keys", 1, "cmds", cZAdd|cZScore|cDel, "index", 1, "nscores", 2))
+				add("zset-close-scores-k3", p("k", 3, "keys", 1, "cmds", cZAdd|cZScore, "scoreset", 1, "nscores", 2))
 				add("set-type-k3", p("k", 3, "keys", 1, "cmds", cSAdd|cSRem|cSIsMember|cDel|cType|cSet))
 				add("all-types-merge-restart-k3", p("k", 3, "keys", 1, "cmds", cSet|cGet|cHSet|cHGet|cSAdd|cSIsMember|cLPush|cLPop|cZAdd|cZScore|cRestart, "mergerestart", 1, "nscores", 1))
 				// empty values and the empty field/member name are values/names like any other
@@ -821,6 +829,7 @@ func init() {
 				add("all-commands-2keys-k3", p("k", 3, "keys", 2, "cmds", 65535))
 				add("list-restart-k5", p("k", 5, "keys", 1, "cmds", cLPush|cLPop|cDel|cRestart))
 				add("zset-set-btree-k4", p("k", 4, "keys", 1, "cmds", cZAdd|cZScore|cSAdd|cSRem|cSIsMember|cDel|cRestart, "index", 1))
+				add("zset-close-and-extreme-scores-k3", p("k", 3, "keys", 1, "cmds", cZAdd|cZScore, "scoreset", 1))
 			}
 			js = append(js, JobSpec{Name: "witness", Harness: "datatype", Func: "verifHarnessC19", Params: p("k", 1, "keys", 1, "cmds", cSet, "witness", 1), Scale: scaleDF(32), Witness: true})
 			return js
